@@ -95,6 +95,12 @@ type scanCfg struct {
 	header bool      // call Header() first
 	maxObj int
 	trace  bool
+	// optional stop: after stopAfter delivered objects (-1 = never) the context is cancelled, by the
+	// scanning goroutine (stopMode 1) or, independent of stopAfter, by a second goroutine after
+	// cancelDelayQ quanta (stopMode 2); Scan is then called until it returns false
+	stopAfter    int
+	stopMode     int
+	cancelDelayQ int64
 }
 
 type scanRes struct {
@@ -108,6 +114,7 @@ type scanRes struct {
 	reader  *simReader
 	policy  string
 	offs    [][2]int64 // FullyScannedBytes / PreviousFullyScannedBytes after each successful Scan
+	endOffs [2]int64   // the same, read after the final Scan()==false
 }
 
 var speedSets = [][]int64{
@@ -154,7 +161,17 @@ func runScan(t *testing.T, c scanCfg) (res scanRes) {
 		c.maxObj = 100000
 	}
 	res.sim = simu.Run(t, cfg, func(sim *simrt.Sim, root context.Context) {
-		sc := osmpbf.New(root, rd, c.procs)
+		ctx, cancel := context.WithCancel(root)
+		defer cancel()
+		sc := osmpbf.New(ctx, rd, c.procs)
+		if c.stopMode == 2 {
+			d := time.Duration(c.cancelDelayQ * simrt.Q)
+			simrt.GoNamed("canceller", func() {
+				time.Sleep(d)
+				simrt.Yield("canceller.cancel")
+				cancel()
+			})
+		}
 		sc.SkipNodes, sc.SkipWays, sc.SkipRelations = c.skip[0], c.skip[1], c.skip[2]
 		sc.FilterNode, sc.FilterWay, sc.FilterRelation = c.fNode, c.fWay, c.fRel
 		if c.header {
@@ -162,6 +179,10 @@ func runScan(t *testing.T, c scanCfg) (res scanRes) {
 			res.hdr, res.hdrErr = sc.Header()
 		}
 		for len(res.objs) < c.maxObj && sim.Aborted() == "" {
+			if c.stopMode == 1 && len(res.objs) == c.stopAfter {
+				simrt.Yield("consumer.cancel")
+				cancel()
+			}
 			simrt.Yield("consumer.Scan")
 			if !sc.Scan() {
 				break
@@ -172,6 +193,7 @@ func runScan(t *testing.T, c scanCfg) (res scanRes) {
 			res.offs = append(res.offs, [2]int64{sc.FullyScannedBytes(), sc.PreviousFullyScannedBytes()})
 		}
 		res.err = sc.Err()
+		res.endOffs = [2]int64{sc.FullyScannedBytes(), sc.PreviousFullyScannedBytes()}
 		simrt.Yield("consumer.Close")
 		sc.Close()
 		res.closeOK = true
